@@ -42,14 +42,19 @@ def san_list(names: List[str]) -> str:
     return ','.join(out)
 
 
-def make_leaf(d: str, name: str, sans: List[str], ca: Optional[Tuple[str, str]], expired: bool = False) -> Tuple[str, str]:
+def make_leaf(d: str, name: str, sans: List[str], ca: Optional[Tuple[str, str]], expired: bool = False,
+              org: Optional[str] = 'origin', utf8: bool = False) -> Tuple[str, str]:
     """ca=None => self-signed leaf.  Returns (key, cert)."""
     key, crt, csr = os.path.join(d, name + '.key'), os.path.join(d, name + '.crt'), os.path.join(d, name + '.csr')
     make_key(key)
     ext = os.path.join(d, name + '.ext')
     with open(ext, 'w') as f:
         f.write('subjectAltName=%s\nbasicConstraints=CA:FALSE\nkeyUsage=digitalSignature,keyEncipherment\nextendedKeyUsage=serverAuth\n' % san_list(sans))
-    _run(['req', '-new', '-key', key, '-out', csr, '-subj', '/CN=%s/O=origin' % sans[0][:60]])
+    if org is None:
+        subj = '/'          # a certificate without any subject field: identified by its subjectAltName only
+    else:
+        subj = '/CN=%s/O=%s' % (sans[0][:60], org.replace('\\', '\\\\').replace('/', '\\/'))
+    _run(['req', '-new', '-key', key, '-out', csr, '-subj', subj] + (['-utf8'] if utf8 else []))
     if expired and ca is not None:
         # `openssl x509 -not_before/-not_after` only exists from OpenSSL 3.4 on; `openssl ca -startdate/-enddate` is in every
         # version (the system openssl here is 3.0, a newer one may or may not be first on PATH).
